@@ -66,6 +66,9 @@ pub struct Case {
     pub q: QuicheCfg,
     pub conn: ConnScript,
     pub net: NetCfg,
+    /// s2n-quic starts a 1-RTT key update after this many packets per key (hook aws_s2n_quic_verif); None = never in practice
+    #[serde(default)]
+    pub key_update_after: Option<u32>,
 }
 
 impl Case {
@@ -371,10 +374,11 @@ pub fn case(s2n_client: bool) -> BoxedStrategy<Case> {
         prop::collection::vec(stream(), 1..=GEN.max_streams),
         wgen::net(GEN),
         prop_oneof![2 => Just(None), 1 => (2u8..=8).prop_map(Some)],
+        prop_oneof![2 => Just(None), 1 => prop_oneof![Just(40u32), Just(100), 40u32..1_000].prop_map(Some)],
     )
-        .prop_map(move |(seed, mut s2n, s2n_retry, rsa_cert, q, streams, net, cids)| {
+        .prop_map(move |(seed, mut s2n, s2n_retry, rsa_cert, q, streams, net, cids, key_update_after)| {
             s2n.limits.max_active_cids = cids;
-            normalise(Case { seed, s2n_client, s2n, s2n_retry, rsa_cert, q, conn: ConnScript { streams, close_code: Some(0), datagrams: vec![] }, net })
+            normalise(Case { seed, s2n_client, s2n, s2n_retry, rsa_cert, q, conn: ConnScript { streams, close_code: Some(0), datagrams: vec![] }, net, key_update_after })
         })
         .boxed()
 }
